@@ -173,3 +173,26 @@ class ArrVal:
 
     def __repr__(self):
         return '<ArrVal %r>' % (self.rows,)
+
+
+class SymSet:
+    """A set literal / comprehension whose elements are symbolic: only membership is modelled (``x in s`` is the
+    disjunction of the element equalities, which is what a set of hashable values answers whatever duplicates it
+    merged).  Size, iteration order and truth value depend on which elements coincide and are not modelled."""
+    __slots__ = ('elems',)
+
+    def __init__(self, elems):
+        self.elems = tuple(elems)
+
+    def __len__(self):
+        raise Unsupported('size of a set of symbolic values')
+
+    def __iter__(self):
+        raise Unsupported('iteration over a set of symbolic values')
+
+    def __bool__(self):
+        raise Unsupported('truth value of a set of symbolic values')
+
+    def __repr__(self):
+        return 'SymSet%r' % (self.elems,)
+
